@@ -41,8 +41,18 @@ def arrays_in(o, depth=0, acc=None):
     return acc
 
 
-def _fp_args(qual, args, kwargs):
+def _defaults_of(f):
+    g = getattr(f, "__vf_original__", f)
+    while hasattr(g, "__wrapped__"):
+        g = g.__wrapped__
+    return (getattr(g, "__defaults__", None), getattr(g, "__kwdefaults__", None))
+
+
+def _fp_args(qual, args, kwargs, f=None):
     fps = {}
+    if f is not None:
+        # mutable default arguments are shared by all later calls: they must never change either
+        fps["<default arguments>"] = util.fingerprint(_defaults_of(f))
     for i, a in enumerate(args):
         if (qual, i) in State.exempt_args or (qual == "__init__" and i == 0):
             continue
@@ -65,7 +75,7 @@ def wrap(owner, name, label=None, method=False):
         if not S.armed or S.rec is None or S.depth > 0:
             return f(*args, **kwargs)
         rec = S.rec
-        before = _fp_args(short, args, kwargs)
+        before = _fp_args(short, args, kwargs, f)
         S.depth += 1
         raised = None
         try:
@@ -77,7 +87,7 @@ def wrap(owner, name, label=None, method=False):
             S.depth -= 1
         rec.count("argmon:calls")
         rec.count("argmon:" + qual)
-        after = _fp_args(short, args, kwargs)
+        after = _fp_args(short, args, kwargs, f)
         fam, case = rec.current if rec.current else ("?", None)
         for k in before:
             if before[k] != after[k]:
